@@ -92,7 +92,7 @@ CLAIMED["C04"] = ("Proof (deductive, arbitrary input) of the functional contract
   "NOT covered by proof: the traversal (parseField, parseSequenceOf, parseOpenType, Unmarshal*), hence whole-PDU round trips are bounded only; canonical encodings from an independent whole-PDU encoder are not available offline. Trusted: govc, go/ssa, SMT solvers.",
   "DESIGN.md §4 C04")
 
-CLAIMED["C20"] = ("Whole-program frame analysis (structural obligations on go/ssa, no solver): no repository function reachable (class-hierarchy call graph) from ngap.Encoder/Decoder, PlainNasEncode/Decode, NASEncode/NASDecode, DeriveRESstarAndSetKey, NASEncrypt, NASMacCalculate "
+CLAIMED["C20"] = ("Whole-program frame analysis (structural obligations on go/ssa, no solver): no repository function reachable (class-hierarchy call graph) from ngap.Encoder/Decoder, PlainNasEncode/Decode, NASEncode/NASDecode, EncodeNasPduWithSecurity, GetNasPdu, DeriveRESstarAndSetKey, NASEncrypt, NASMacCalculate and the nine NAS message constructors the emulator uses (nasTestpacket, with nasConvert behind them) "
   "writes a package-level variable, reads one that is written after initialisation, hands the address of one to another function, or writes THROUGH a slice / map / pointer read from one (taint over indexing, slicing, lookup, append, phi and repository calls; store, map update, append, copy and a list of standard-library writers) — with the recorded exception of the SNOW 3G generator state (known finding, with a deterministic interleaving witness run natively). "
   "Together with the functional contracts of C05/C06/C07/C10 (results are functions of the arguments and caller-owned memory: frame clauses `assigns`) this gives sequential = concurrent results for everything but NEA1/NIA1.",
   "No schedule is explored and no race detector is run: the step from disjoint footprints to race freedom is a stated meta-rule; standard library and third-party packages are assumed thread-safe; reachability through reflection is limited to the call graph. "
